@@ -114,9 +114,23 @@ def run(prop, tier, seed, replay):
                 n = rng.choice([N, N + 3, 30, 80])
                 if mode == "centers" and ci % 2 == 0:
                     n = max(n, 30)          # several chunks of 7 (stratum below)
-                weights = rng.random() < 0.5
+                weights = (rng.random() < 0.5) or ci % 4 == 1       # (the zero-weight stratum below needs weights)
                 s = G.make_sample(rng, field, n=max(n, N), extent_mode=rng.choice(["compact", "wide", "mixed"]),
                                   zrange=(0.1, 1.0), weights=weights)
+                if weights and ci % 2 == 1 and len(s["ra"]) >= 3 * N:
+                    # stratum: the outermost record of every patch carries weight exactly 0 (masked objects stay records:
+                    # they are counted, and the stored radius has to reach them)
+                    v_ = O.to_vec(s["ra"], s["dec"])
+                    cv_ = O.to_vec(field["ra"], field["dec"])
+                    pid_ = np.asarray(s["patch"])
+                    w_ = np.asarray(s["w"], dtype=float).copy()
+                    for p_ in range(N):
+                        sel_ = np.flatnonzero(pid_ == p_)
+                        if len(sel_) >= 3:
+                            far_ = sel_[np.argmax(((v_[sel_] - cv_[p_]) ** 2).sum(axis=1))]
+                            w_[far_] = 0.0
+                    s["w"] = w_
+                    ck.count("stratum=zero-weight-outermost-record")
                 chunk = rng.choice([None, 7, 16])
                 if mode == "centers" and ci % 2 == 0:
                     # spatially sorted input read in small chunks: patches make their first appearance one after the
